@@ -25,6 +25,8 @@ import sys
 import common
 from common import Ctx, Outcome
 
+sys.path.insert(0, str(pathlib.Path(__file__).resolve().parent.parent))
+
 DRIVERS = ["Xml"]
 TABLES = True
 LEVEL = "proof"
@@ -307,6 +309,99 @@ def features(doc: dict) -> list[str]:
     return f or ["plain"]
 
 
+# ------------------------------------------------------------------ independent oracles on the written text
+
+# what the property says about line lengths, stated here independently of loader.core (a generated-table obligation
+# compares the model's copy with core.SEMANTIC_EXTS / VISUAL_EXTS)
+SEMANTIC_SUFFIXES = {".capella", ".capellafragment", ".melodyfragment", ".melodymodeller"}
+
+
+def expected_line_length(suffix: str) -> int:
+    return 80 if suffix in SEMANTIC_SUFFIXES else MAXSIZE
+
+
+def wrap_monitor(text: str, ll: int) -> str | None:
+    """The 80-column rule read off the written characters alone: inside a start tag an attribute follows on the same
+    line iff the column reached (in characters) is <= ll and no break is forced (after the root's `id`); a line break
+    inside a tag needs column > ll or the forced break, and is followed by the attribute indent (tag column + 4).
+    Only for Capella-shaped documents with ASCII tag names. Returns a description of the first violation."""
+    i, n, col = 0, len(text), 0
+    seen_root = False
+    while i < n:
+        ch = text[i]
+        if ch == "<" and text.startswith("<!--", i):
+            j = text.index("-->", i) + 3
+            seg = text[i:j]
+            col = len(seg) - seg.rfind("\n") - 1 if "\n" in seg else col + len(seg)
+            i = j
+            continue
+        if ch == "<" and text.startswith("<?", i):
+            j = text.index("?>", i) + 2
+            col += j - i
+            i = j
+            continue
+        if ch == "<" and i + 1 < n and text[i + 1] != "/":
+            # a start tag
+            is_root = not seen_root
+            seen_root = True
+            tag_col = col
+            j = i + 1
+            while text[j] not in " \n/>":
+                j += 1
+            col += j - i
+            i = j
+            prev_attr = None
+            while True:
+                ch = text[i]
+                if ch == ">" or (ch == "/" and text[i + 1] == ">"):
+                    step = 1 if ch == ">" else 2
+                    col += step
+                    i += step
+                    break
+                forced = is_root and prev_attr == "id"
+                if ch == " ":
+                    if col > ll:
+                        return f"an attribute follows on the same line although column {col} > {ll}: ...{text[max(0, i - 60):i + 30]!r}"
+                    if forced:
+                        return f"no line break after the root's id: ...{text[max(0, i - 40):i + 30]!r}"
+                    col += 1
+                    i += 1
+                elif ch == "\n":
+                    if not (col > ll or forced):
+                        return f"line break inside a tag at column {col} <= {ll} without need: ...{text[max(0, i - 60):i + 30]!r}"
+                    j = i + 1
+                    while text[j] == " ":
+                        j += 1
+                    if j - i - 1 != tag_col + 4:
+                        return f"attribute indent {j - i - 1}, expected {tag_col + 4}: ...{text[max(0, i - 30):j + 20]!r}"
+                    col = j - i - 1
+                    i = j
+                else:
+                    return f"unexpected character {ch!r} inside a tag"
+                # attribute name="value"
+                j = text.index("=", i)
+                prev_attr = text[i:j]
+                k = text.index('"', j + 2)
+                col += k + 1 - i
+                i = k + 1
+            continue
+        if ch == "\n":
+            col = 0
+        else:
+            col += 1
+        i += 1
+    return None
+
+
+def norm_doc(doc: dict):
+    """information content of an exported document: attribute and declaration order dropped, '' text = no text"""
+    def ne(e):
+        tag, own, attrs, text, tail, kids = e
+        return (tag, tuple(sorted(map(tuple, own))), tuple(sorted(map(tuple, attrs))), text or None, tail or None,
+                tuple(ne(k) for k in kids))
+    return (tuple(map(tuple, doc["pre"])), ne(doc["root"]), tuple(map(tuple, doc["post"])))
+
+
 # ------------------------------------------------------------------ generators
 
 ALPHA = ['"', "&", "<", ">", "'", "\t", "\n", "\r", "\x7f", " ", "  ", "a", "Z", "0", "\xe9", "\x80", "\x85", "\x9f",
@@ -468,6 +563,19 @@ class Cases:
         if b2 != b:
             self.out.find(f"exs.serialize|write-parse-write-differs|{cls}",
                           f"write-parse-write is not a fixpoint for a Capella-shaped tree ({label})", case)
+        # what is read back carries the same information (comments included)
+        if sib and norm_doc(export_doc(rt, set(), siblings=True)) != norm_doc(doc):
+            a, c = norm_doc(export_doc(rt, set(), siblings=True)), norm_doc(doc)
+            what = "comment" if (a[0], a[2]) != (c[0], c[2]) else "tree"
+            self.out.find(f"exs.serialize|reparse-differs|{what}",
+                          f"a Capella-shaped tree ({label}) reads back differently after being written: "
+                          + (f"comments {c[0] + c[2]!r} -> {a[0] + a[2]!r}" if what == "comment" else "element tree differs"), case)
+        # the wrap rule, read off the characters
+        if all(ord(ch) < 128 for ch in doc["root"][0]):
+            w = wrap_monitor(text, ll)
+            if w:
+                self.out.find("exs.serialize|wrap-rule|" + ("missing-break" if "same line" in w or "no line break" in w else "needless-break" if "without need" in w else "indent"),
+                              f"{label}, line length {ll}: {w}", case)
 
     def cover(self, text: str, iv: dict):
         h = self.out.hit
@@ -674,6 +782,29 @@ def run(ctx: Ctx) -> Outcome:
             continue
         cs.req.append({"op": "xml.write", "kind": kind, "doc": doc})
         cs.meta.append(("corpus.write_xml", {"file": rel}, {"out": b.decode("utf-8")}))
+        # the same tree under every file suffix the loader accepts: Capella writes a fragment file exactly like the
+        # main file of its kind, so for a suffix of the same kind the bytes on disk are the expected output
+        if len(b) < 120_000 or ctx.thorough:
+            for sfx in sorted(core.VALID_EXTS):
+                mf.filename = pathlib.PurePosixPath("x" + sfx)
+                buf = io.BytesIO()
+                mf.write_xml(buf)
+                bs = buf.getvalue()
+                out.case(("corpus-suffix", rel, sfx), None, True)
+                same_kind = expected_line_length(sfx) == expected_line_length(p.suffix)
+                if same_kind and bs != disk:
+                    out.find(f"ModelFile.write_xml|bytes-differ-by-suffix|{sfx}",
+                             f"the tree of {rel} written as a '{sfx}' file differs from the bytes Capella wrote for it "
+                             f"(line length must be {expected_line_length(sfx) if expected_line_length(sfx) == 80 else 'unbounded'})",
+                             {"kind": "file", "path": rel, "suffix": sfx})
+                elif not same_kind and kind != "other":
+                    w = wrap_monitor(bs.decode("utf-8"), expected_line_length(sfx))
+                    if w:
+                        out.find(f"ModelFile.write_xml|wrap-rule-by-suffix|{sfx}", f"{rel} written as '{sfx}': {w}",
+                                 {"kind": "file", "path": rel, "suffix": sfx})
+                cs.req.append({"op": "xml.write", "suffix": sfx, "doc": doc})
+                cs.meta.append(("corpus.write_xml.suffix", {"file": rel, "suffix": sfx}, {"out": bs.decode("utf-8")}))
+            mf.filename = pathlib.PurePosixPath(p.name)
         if len(b) < 400_000 or ctx.thorough:
             cs.req.append({"op": "xml.parse", "s": disk.decode("utf-8")})
             cs.meta.append(("corpus.parse", {"file": rel}, {"doc": doc}))
@@ -737,6 +868,7 @@ def run(ctx: Ctx) -> Outcome:
 
     # ---- monitor: load -> save, byte for byte
     monitor_load_save(ctx, out)
+    monitor_fragmented(ctx, out)
 
     # ---- differential comparison
     if os.environ.get("VERIF_NO_MODEL") != "1":
@@ -801,8 +933,70 @@ def monitor_load_save(ctx: Ctx, out: Outcome) -> None:
         shutil.rmtree(work, ignore_errors=True)
 
 
+def monitor_fragmented(ctx: Ctx, out: Outcome) -> None:
+    """Fragmented layouts (semantic fragment files, optionally .airdfragment): harness/fragmenter.py cuts a corpus
+    model into fragments (independently of capellambse, written with lxml), the model is loaded and saved; every
+    written file must obey the line length of its suffix (wrap rule read off the characters), and saving what was
+    loaded from those files again must not change a byte."""
+    import logging
+
+    import capellambse
+    import fragmenter
+
+    logging.getLogger("capellambse").setLevel(logging.CRITICAL)
+    data = common.REPO / "tests" / "data"
+    srcs = [data / "decl" / "empty_project_52" / "empty_project_52.aird", data / "writemodel" / "WriteTestModel.aird"]
+    if ctx.thorough:
+        srcs += [data / "parser" / "TestItems.aird", data / "pvmt" / "PVMTTest.aird", data / "filtering" / "Filtered Project.aird"]
+    for si, aird in enumerate(srcs):
+        rel = str(aird.relative_to(common.REPO))
+        main, _ = fragmenter.find_main(aird)
+        cands = [c for c in fragmenter.candidate_cut_points(aird.parent / main) if 2 <= c[2] <= 400 and c[1] <= 5]
+        if not cands:
+            continue
+        for variant in range(ctx.pick(1, 3)):
+            picks = ctx.rng.sample(cands, min(len(cands), ctx.rng.randint(1, 3)))
+            exts = [".capellafragment", ".melodyfragment"]
+            cuts = [(ident, f"fragments/f{i}{ctx.rng.choice(exts)}") for i, (ident, _, _) in enumerate(picks)]
+            dst = ctx.scratch / "frag" / f"{si}-{variant}"
+            case = {"kind": "fragmented", "path": rel, "cuts": cuts}
+            try:
+                lay = fragmenter.fragment(aird, dst, cuts, airdfragments=bool(variant % 2))
+                m = capellambse.MelodyModel(str(lay.aird))
+                m.save()
+            except Exception as e:  # noqa: BLE001
+                out.hit("fragmented-skipped:" + type(e).__name__)
+                shutil.rmtree(dst, ignore_errors=True)
+                continue
+            pdir = lay.aird.parent
+            first = {f.relative_to(pdir): f.read_bytes() for f in pdir.rglob("*") if f.is_file()}
+            for f, bts in first.items():
+                if f.suffix not in {".capella", ".capellafragment", ".melodyfragment", ".melodymodeller", ".aird", ".airdfragment", ".afm"}:
+                    continue
+                out.case(("fragmented", rel, variant, str(f)), None, True)
+                out.traces_validated += 1
+                w = wrap_monitor(bts.decode("utf-8"), expected_line_length(f.suffix))
+                if w:
+                    out.find(f"MelodyModel.save|wrap-rule-by-suffix|{f.suffix}",
+                             f"fragmented copy of {rel}: {f} is not written with the line length of its kind: {w}", case)
+            m2 = capellambse.MelodyModel(str(lay.aird))
+            m2.save()
+            for f, bts in first.items():
+                if (pdir / f).read_bytes() != bts:
+                    out.find(f"MelodyModel.save|bytes-differ|{f.suffix}",
+                             f"fragmented copy of {rel}: loading and saving again changed {f}", case)
+            out.hit("fragmented-layout")
+            shutil.rmtree(dst, ignore_errors=True)
+
+
 def replay(ctx: Ctx, case: dict):
     etree, exs, core = impl()
+    if case["kind"] == "fragmented":
+        o = Outcome()
+        monitor_fragmented(ctx, o)
+        for f in o.findings:
+            return f.what
+        return None
     if case["kind"] == "tree":
         root = build_doc(etree, case["doc"])
         sib, ll = case["siblings"], case["ll"]
@@ -812,16 +1006,25 @@ def replay(ctx: Ctx, case: dict):
         except etree.XMLSyntaxError as e:
             return f"written XML cannot be read back: {e}; bytes: {b[:300]!r}"
         b2 = exs.serialize(rt.getroottree() if sib else rt, line_length=ll, siblings=sib)
-        return None if b2 == b else f"write-parse-write differs: {b[:200]!r} vs {b2[:200]!r}"
+        if b2 != b:
+            return f"write-parse-write differs: {b[:200]!r} vs {b2[:200]!r}"
+        if sib and norm_doc(export_doc(rt, set(), siblings=True)) != norm_doc(case["doc"]):
+            return f"reads back differently: {b[:300]!r}"
+        w = wrap_monitor(b.decode("utf-8"), ll)
+        return f"wrap rule: {w}" if w else None
     if case["kind"] == "file":
         p = common.REPO / case["path"]
         tree = etree.parse(str(p), parser(etree))
         mf = core.ModelFile.__new__(core.ModelFile)
-        mf.filename = pathlib.PurePosixPath(p.name)
+        mf.filename = pathlib.PurePosixPath("x" + case["suffix"]) if case.get("suffix") else pathlib.PurePosixPath(p.name)
         mf.root = tree.getroot()
         buf = io.BytesIO()
         mf.write_xml(buf)
-        return None if buf.getvalue() == p.read_bytes() else f"re-serialising {case['path']} changes its bytes"
+        if case.get("suffix") and expected_line_length(case["suffix"]) != expected_line_length(p.suffix):
+            w = wrap_monitor(buf.getvalue().decode("utf-8"), expected_line_length(case["suffix"]))
+            return f"{case['path']} written as '{case['suffix']}': {w}" if w else None
+        return None if buf.getvalue() == p.read_bytes() else (
+            f"re-serialising {case['path']}" + (f" as a '{case['suffix']}' file" if case.get("suffix") else "") + " changes its bytes")
     if case["kind"] == "escape":
         import inspect
 
